@@ -5,10 +5,13 @@ import GqlProofs.Parser.SoundTop
 /-
   C05 — the query parser accepts exactly the executable grammar, faithfully.
 
-  This file holds the SPECIFICATION-side theorems: they are about the grammar tables `gql`, the
+  First the SPECIFICATION-side theorems: they are about the grammar tables `gql`, the
   derivation relation `Derives`, the generic recogniser (`recognises`, `canonical`: what the
-  driver ops `gq` / `gqc` run) and the unparser `Print.printQuery` (op `unparseq`).  The tie to
-  the real parser is the check `C05` (harness/internal/props/grammarcheck.go): verdict and
+  driver ops `gq` / `gqc` run) and the unparser `Print.printQuery` (op `unparseq`).
+  Then (section "the parser is sound") the theorems about the PARSER MODEL
+  (`GqlModel/Parser/Query.lean`, op `pq`): every accepted non-empty document is derivable and its
+  tree unparses to a canonical form of the input (`C05_parse_sound`, `C05_parse_sound_<nt>`).
+  The tie to the real parser is the check `C05` (harness/internal/props/grammarcheck.go): verdict and
   unparse equation against these definitions, input by input.
 -/
 open Gql Gql.Lexer Gql.Grammar Gql.Print Gql.Parser
@@ -218,12 +221,10 @@ theorem C05_parse_sound_selection_set (n : Nat) :
       ss ≠ .nil ∧ WFSelections ss ∧ Derives gql (.nt .selectionSet) (tk used) (printSelectionSet ss) ∧ used ≠ []) :=
   spec_parseRequiredSelectionSet n
 
-/-- `OperationDefinition`, called (as `parseQueryDocument` does) with a Name or `{` ahead; the
-    recorded position is that of the first consumed token -/
+/-- `OperationDefinition`; the recorded position is that of the first consumed token -/
 theorem C05_parse_sound_operation_definition (n : Nat) :
-    Spec (parseOperationDefinition n) (fun o a a' => a.σ.head.kind = .name ∨ a.σ.head.kind = .braceL →
-      Eats (fun o used => (∃ t rest, used = t :: rest ∧ o.pos.start = t.start) ∧
-        Derives gql (.nt .operationDefinition) (tk used) (printOperation o) ∧ WFOperation o) o a a') :=
+    Spec (parseOperationDefinition n) (Eats fun o used => (∃ t rest, used = t :: rest ∧ o.pos.start = t.start) ∧
+      Derives gql (.nt .operationDefinition) (tk used) (printOperation o) ∧ WFOperation o) :=
   spec_parseOperationDefinition n
 
 /-- `FragmentDefinition` (with the library's optional variable definitions) -/
@@ -254,6 +255,21 @@ theorem C05_parse_sound (inp : Bytes) (doc : QueryDoc) (h : parseQuery 0 inp = .
   obtain ⟨raw, eof, h1, h2, h3, _, h5, _⟩ := parseQuery_sound inp doc h
   obtain ⟨d, wf⟩ := h5 hne
   exact ⟨_, tokensOf_of_done h1 h2 h3, ⟨_, d⟩, d, wf⟩
+
+/- FULL STATEMENT of tree faithfulness with the recogniser's `canonical` (not finished):
+
+     theorem C05_parse_faithful_canonical (inp doc) (h : parseQuery 0 inp = .ok doc) (hne : doc.ops ≠ [] ∨ doc.frags ≠ []) :
+       ∃ ts, tokensOf inp = some ts ∧ canonical gql .executableDocument ts = some (printQuery doc)
+
+   `C05_parse_sound` proves it with `Derives gql (.nt .executableDocument) ts (printQuery doc)` in
+   place of `canonical … = some …`, i.e. "the unparse is the canonical output of SOME derivation of
+   ts", where `canonical` returns the output of the FIRST derivation the matcher finds
+   (`C05_canonical_sound`).  The two missing links are facts about the grammar tables and the
+   generic matcher only, not about the parser:
+     (1) canonical outputs are unique:  Derives gql (.nt n) ts o₁ → Derives gql (.nt n) ts o₂ → o₁ = o₂
+         (unambiguity of the grammar up to the spellings `canon` removes);
+     (2) the matcher is complete at its standard fuel:  Derivable gql n ts → (canonical gql n ts).isSome.
+   The correspondence check C05 compares `printQuery tree` with `canonical` input by input. -/
 
 /-- … under any token limit (a parse that succeeds under a limit is the unlimited parse) -/
 theorem C05_parse_sound_limit (L : Nat) (inp : Bytes) (doc : QueryDoc) (h : parseQuery L inp = .ok doc)
